@@ -50,7 +50,7 @@ def getProfP (m : Json) : Except String CHPProfP := do
 def getMinLoadP (m : Json) : Except String MinLoadP := do
   pure { threshold := ← fieldOpt m "threshold" getParam, costs := ← fieldOpt m "costs" getParam }
 
-def getCoarse (j : Json) : Except String CoarseGrid := do
+def getCoarseCO (j : Json) : Except String CoarseGrid := do
   pure { grid := ← field j "grid" getGrid, minor := ← field j "minor" (getList getNats) }
 
 partial def getSpec (j : Json) : Except String CSpec := do
@@ -69,10 +69,10 @@ partial def getSpec (j : Json) : Except String CSpec := do
     pure (.extTransport (← field j "params" getTransportP) (← field j "grid" getGrid) (← field j "fullT" Json.getNat?)
       ((← fieldOpt j "unitSec" Json.getNat?).getD 3600))
   | "coarse_simple" =>
-    pure (.coarseSimple (← field j "params" getContractP) (← field j "coarse" getCoarse) (← field j "dt_fine" getRats)
+    pure (.coarseSimple (← field j "params" getContractP) (← field j "coarse" getCoarseCO) (← field j "dt_fine" getRats)
       (← field j "fullT" Json.getNat?))
   | "coarse_transport" =>
-    pure (.coarseTransport (← field j "params" getTransportP) (← field j "coarse" getCoarse) (← field j "dt_fine" getRats)
+    pure (.coarseTransport (← field j "params" getTransportP) (← field j "coarse" getCoarseCO) (← field j "dt_fine" getRats)
       (← field j "fullT" Json.getNat?))
   | "storage" => pure (.storage (← field j "params" getStorageP) (← field j "grid" getGrid) (← field j "T" Json.getNat?))
   | "orderbook" => do
